@@ -51,7 +51,8 @@ RULE = ("seeded process tensors of three families: (hand) ancilla "
         "file; lengths 1..8; with/without dt, name, description (ascii, "
         "unicode, empty, multi-line). Each is exported, imported as 'file' "
         "and 'simple', re-exported and re-imported; all consumers run on the "
-        "original and on the imported objects of both types and generations. Non-trivial iff the stored "
+        "original and on the imported objects of both types and "
+        "generations. Non-trivial iff the stored "
         "tensors are non-zero and (when consumers apply) the environment "
         "changes the reduced dynamics by >= 1e-3; distinct = distinct "
         "(family, d, measured bond dimensions, rank, transforms, dt, name, "
@@ -105,7 +106,8 @@ def required_cells(tier):
            "overwrite:export-refused": 2, "overwrite:export-replaced": 2,
            "overwrite:pttempo-refused": 1, "overwrite:pttempo-replaced": 1,
            "direct-file": 2, "tensors_compared": 500, "caps_compared": 500,
-           "consumer_runs_compared": 100, "roundtrip:import": 50}
+           "consumer_runs_compared": 100, "roundtrip:import": 50,
+           "filebacked_tensorwise": 4, "gauge_invariant_comparisons": 8}
     for n in LENGTHS:
         req[f"len:{n}"] = 2
     for b in BONDS:
@@ -276,16 +278,15 @@ def compare(ctx, ref, got, label, caps_exact=True):
     MPO tensor (stored data bit-identical, transformed tensors 1e-13), every
     cap (bit-identical, or 1e-13 if they were computed by the other class's
     compute_caps), the gauge-invariant probes."""
-    stored_exact = True
     worst = compare_attributes(ctx, ref, got, label)
     if len(ref["raw"]) == len(got["raw"]):
         for k in range(len(ref["raw"])):
             r1 = cmp_array(ctx, label, f"raw[{k}]", ref["raw"][k],
-                           got["raw"][k], stored_exact)
+                           got["raw"][k], True)
             r2 = cmp_array(ctx, label, f"mpo[{k}]", ref["mpo"][k],
                            got["mpo"][k], False)
             r3 = cmp_array(ctx, label, f"mpo4[{k}]", ref["mpo4"][k],
-                           got["mpo4"][k], stored_exact)
+                           got["mpo4"][k], True)
             worst = max(worst, r1, r2, r3)
             ctx.count("tensors_compared")
     for k in range(min(len(ref["caps"]), len(got["caps"]))):
